@@ -56,6 +56,14 @@ PROGS = [
     ("def prog(c: Parameter[Qmatrix[bool, 1, 4]], a: bool) -> bool:\n    return all(c[0]) or (any(c[0]) and a)\n", {"c": "tab14"}),
     ("def prog(k: Parameter[Qint[4]], a: Qint[4]) -> Qint[4]:\n    return a ^ k\n", {"k": "i4"}),
     ("def prog(k: Parameter[Qint[3]], a: Qint[3]) -> bool:\n    return a == k\n", {"k": "i3"}),
+    # a parameter re-assigned under a condition and tested afterwards / in the other branch
+    ("def prog(inc: Parameter[bool], a: Qint[2], b: bool) -> Qint[2]:\n    r = a\n    if b:\n        inc = False\n        r = a + 1\n    elif inc:\n        r = a + 2\n    if inc:\n        r = r + 1\n    return r\n", {"inc": "b"}),
+    ("def prog(k: Parameter[bool], a: bool, b: bool) -> bool:\n    r = a\n    if b:\n        k = not k\n    else:\n        if k:\n            r = not a\n    return r ^ k\n", {"k": "b"}),
+    ("def prog(c: Parameter[Qint[2]], a: Qint[2], b: bool) -> Qint[2]:\n    r = a\n    if b:\n        c = a\n    else:\n        r = a + c\n    return r + c\n", {"c": "i2"}),
+    ("def prog(k: Parameter[bool], j: Parameter[bool], a: bool) -> bool:\n    r = a\n    if a:\n        k = j\n        r = k\n    else:\n        if k:\n            r = j\n    return r != k\n", {"k": "b", "j": "b"}),
+    # elements of a bound table as constant factors inside a loop
+    ("def prog(w: Parameter[Qlist[Qint[2], 2]], x: Qint[2], y: Qint[2]) -> Qint[4]:\n    s = Qint4(0)\n    for k in w:\n        s += x * k + y\n    return s\n", {"w": "li2"}),
+    ("def prog(w: Parameter[Qlist[Qint[2], 3]], x: Qint[2]) -> Qint[6]:\n    s = 0\n    for k in w:\n        s = s + k * x\n    return s\n", {"w": "li3s"}),
     # the declared width of an integer parameter is wider than the values bound to it
     ("def prog(c: Parameter[Qint[4]], a: bool) -> Qint[4]:\n    return c + 1 if a else c\n", {"c": "i4"}),
     ("def prog(c: Parameter[Qint[4]], a: Qint[2]) -> Qint[4]:\n    return (c + a) + a\n", {"c": "i4"}),
